@@ -574,6 +574,7 @@ impl DtlsInner {
 
                     self.handle_decrypted_record(
                         record.content_type,
+                        record.epoch == 0,
                         payload,
                         ctx,
                         incoming_data_tx,
@@ -683,6 +684,7 @@ impl DtlsInner {
     async fn handle_decrypted_record(
         &self,
         content_type: ContentType,
+        unprotected: bool,
         payload: Bytes,
         ctx: &mut HandshakeContext,
         incoming_data_tx: &mpsc::UnboundedSender<Bytes>,
@@ -702,7 +704,7 @@ impl DtlsInner {
                 let _ = incoming_data_tx.send(payload);
             }
             ContentType::Handshake => {
-                self.process_handshake_payload(payload, ctx, certificate, is_client)
+                self.process_handshake_payload(payload, unprotected, ctx, certificate, is_client)
                     .await?;
             }
             ContentType::Alert => {
@@ -724,6 +726,7 @@ impl DtlsInner {
     async fn process_handshake_payload(
         &self,
         mut body: Bytes,
+        unprotected: bool,
         ctx: &mut HandshakeContext,
         certificate: &Certificate,
         is_client: bool,
@@ -803,6 +806,17 @@ impl DtlsInner {
                             // Ignore out-of-order for now
                             continue;
                         }
+                    }
+
+                    // Once keys are negotiated the only handshake message still to come
+                    // from the peer is its Finished, and that travels protected. A NEW
+                    // message in an unprotected (epoch 0) record is therefore not the
+                    // peer's: acting on it would let anyone on or off the path fail the
+                    // connection or restart the handshake with one cleartext datagram.
+                    // (Retransmissions of the earlier, unprotected flights carry lower
+                    // sequence numbers and were handled above.)
+                    if unprotected && ctx.session_keys.is_some() {
+                        continue;
                     }
 
                     // Clear post_hvr once we've accepted the first post-HVR message
